@@ -586,6 +586,38 @@ def rf32(run):
         raise F.AnalysisBroken('loop_invariant_p: the leading `if (…) return FALSE` guard was not found')
     judge('loop_invariant_p guard', f, g['c'][0], {}, hoist, True,
           'is not excluded from loop-invariant code motion: it would be executed a different number of times (or trap on a path that did not execute it)')
+    # (d) combine_substitute: the definition moved down to its single use is not a call, ALLOCA or BSTART (sp is an implicit operand)
+    f = gen.func('combine_substitute')
+    run.functions_analysed.add(('gen', f.name))
+    mv = [x for x in f.walk() if x['k'] == 'CallExpr' and x.get('callee') == 'gen_move_insn_before']
+    if len(mv) != 1:
+        raise F.AnalysisBroken('combine_substitute: the move of the defining instruction was not found')
+    guards = [x for x in f.walk() if x['k'] == 'IfStmt' and x['l'] < mv[0]['l'] and 'def_insn->code' in F.src(x['c'][0])
+              and any(y['k'] == 'ReturnStmt' for y in F.walk(x['c'][1]))]
+    if not guards:
+        raise F.AnalysisBroken('combine_substitute: no opcode guard in front of the move')
+    for c in calls + ['MIR_ALLOCA', 'MIR_BSTART']:
+        env = {'def_insn->code': codes[c], 'def_insn': 1}
+        vals = []
+        for gq in guards:
+            # `(def_insn = f (…)) == NULL || opcode test`: the assignment is not NULL here
+            e = gq['c'][0]
+            parts = []
+
+            def ors(e_):
+                e_ = F.strip(e_)
+                if e_['k'] == 'BinaryOperator' and e_['op'] == '||':
+                    ors(e_['c'][0]); ors(e_['c'][1])
+                else:
+                    parts.append(e_)
+            ors(e)
+            vals.append(any(preds.eval(p_, env, frozenset()) for p_ in parts if 'def_insn->code' in F.src(p_)))
+        ok = any(vals)
+        run.ob(rule, ('combine_substitute move', c), ok, {'site': 'combine_substitute', 'opcode': c, 'excluded from the move': ok})
+        if not ok:
+            run.violation(rule, f, 'combiner moves %s' % c, 'combine_substitute can move a defining %s down to the use of its result: the '
+                          'instruction changes or reads sp, and between the two places the stack adjustment and the stores of outgoing '
+                          'stack arguments of a call can lie (the callee then reads garbage arguments)' % c, line=mv[0]['l'])
     run.min_instances(rule, 30)
 
 
